@@ -67,7 +67,10 @@ impl Visitor<Diagnostic> for RuleConstantVarsInitialized {
         match node.qualifier {
             DeclarationQualifier::Constant => match &node.initializer {
                 InitialValueAssignmentKind::None(sp) => {
-                    return Err(Diagnostic::todo_with_span(sp.clone(), file!(), line!()))
+                    // Not implemented for this kind of declaration: say so, and keep
+                    // checking the remaining declarations.
+                    self.diagnostics
+                        .push(Diagnostic::todo_with_span(sp.clone(), file!(), line!()))
                 }
                 InitialValueAssignmentKind::Simple(si) => match si.initial_value {
                     Some(_) => {}
@@ -118,19 +121,19 @@ impl Visitor<Diagnostic> for RuleConstantVarsInitialized {
                     }
                 }
                 InitialValueAssignmentKind::FunctionBlock(_) => {
-                    return Err(Diagnostic::todo(file!(), line!()))
+                    self.diagnostics.push(Diagnostic::todo(file!(), line!()))
                 }
                 InitialValueAssignmentKind::Subrange(_) => {
-                    return Err(Diagnostic::todo(file!(), line!()))
+                    self.diagnostics.push(Diagnostic::todo(file!(), line!()))
                 }
                 InitialValueAssignmentKind::Structure(_) => {
-                    return Err(Diagnostic::todo(file!(), line!()))
+                    self.diagnostics.push(Diagnostic::todo(file!(), line!()))
                 }
                 InitialValueAssignmentKind::Array(_) => {
-                    return Err(Diagnostic::todo(file!(), line!()))
+                    self.diagnostics.push(Diagnostic::todo(file!(), line!()))
                 }
                 InitialValueAssignmentKind::LateResolvedType(_) => {
-                    return Err(Diagnostic::todo(file!(), line!()))
+                    self.diagnostics.push(Diagnostic::todo(file!(), line!()))
                 }
             },
             // Do not care about the following qualifiers
